@@ -365,6 +365,14 @@ pub(crate) fn process_handler_blueprint(
     }
 
     HandlerSqeBlueprint::RequestClose => {
+      // Closing the descriptor does not end the operations the kernel already holds for it (a
+      // read that waits for data keeps the connection open, and the peer never learns that this
+      // side is gone). Shutting the socket down does: they complete, nothing more is read from
+      // the buffers of in-flight sends, and what the kernel had accepted before is still
+      // transmitted, as with an ordinary close().
+      unsafe {
+        libc::shutdown(fd, libc::SHUT_RDWR);
+      }
       let mut entry = opcode::Close::new(types::Fd(fd)).build();
       let user_data = internal_ops.new_op_id(fd, InternalOpType::CloseFd, InternalOpPayload::None);
       entry = entry.user_data(user_data);
